@@ -236,6 +236,32 @@ fn run_case(bits: usize, m: usize, t: usize, seeded: bool, rseed: u64) -> Value 
             out["prove_fails_is_err"] = json!(pb.is_err());
         }
     }
+    // phase 7: a prove the library REFUSES because a value does not fit the bit length: neither the error it returns nor anything freed on
+    // the way may hold the value, as bytes or as text (decimal / hex), once dropped
+    if bits < 64 {
+        let big_v: u64 = (1u64 << 40) | (rng.next_u64() >> 26) | 0x0101_0000;
+        let j = m - 1;
+        let mut vals2 = values.clone();
+        vals2[j] = big_v;
+        let comm2: Vec<RistrettoPoint> =
+            vals2.iter().zip(blindings.iter()).map(|(v, r)| params.pc_gens().commit(&Scalar::from(*v), r).unwrap()).collect();
+        let st2 = RangeStatement::init(params.clone(), comm2, vec![None; m], None).unwrap();
+        let ops2: Vec<CommitmentOpening> = vals2.iter().zip(blindings.iter()).map(|(v, r)| CommitmentOpening::new(*v, r.clone())).collect();
+        let w2 = RangeWitness::init(ops2).unwrap();
+        let mut pat4 = patterns.clone();
+        pat4.push(("refused value (LE bytes)".into(), big_v.to_le_bytes().to_vec()));
+        pat4.push(("refused value (decimal text)".into(), format!("{}", big_v).into_bytes()));
+        pat4.push(("refused value (hex text)".into(), format!("{:x}", big_v).into_bytes()));
+        pat4.push(("refused value (HEX text)".into(), format!("{:X}", big_v).into_bytes()));
+        let mut tr7 = Transcript::new(b"bpv-alloc");
+        arm();
+        let r7 = RangeProof::<RistrettoPoint>::prove_with_rng(&mut tr7, &st2, &w2, &mut prng);
+        let is_err = r7.is_err();
+        drop(r7);
+        out["prove_refused"] = disarm_scan(&pat4);
+        out["prove_refused_is_err"] = json!(is_err);
+        drop(w2);
+    }
     // the vector of openings itself: an opening that was pushed and popped again leaves its bytes (value, pointer) in the spare capacity
     let extra_v: u64 = rng.next_u64() | (1 << 63) | 0x0101_0101_0101_0101;
     let mut ops4: Vec<CommitmentOpening> = Vec::with_capacity(m + 2);
